@@ -33,7 +33,11 @@ RULE = (
     "SecurityError, or pydantic ValidationError/ValueError - nothing else; no trap was called or instantiated; "
     "set(sys.modules) is unchanged and the marker absent; an unresolvable name yields a synthetic Exception subclass "
     "of that name; a name that resolves to an exception class yields an instance of it or the generic fallback. "
-    "Non-trivial: the name resolves to something that is not an exception class, or sits at nesting depth >= 1."
+    "(3) 'histories': sequences of 2-10 loads interleaved with unloading / (re)defining the modules the payloads name "
+    "(module names unique per case), incl. the pair (module=None, type='M.f') then (module='M', type='f'); every load is "
+    "judged against the state of sys.modules at that moment. "
+    "Non-trivial: the name resolves to something that is not an exception class, or sits at nesting depth >= 1; a history "
+    "is non-trivial when module state changed between two loads."
 )
 ASSUMPTIONS = [
     "names served only by a module-level __getattr__ (PEP 562) are outside the enumeration (vars(module) only)",
@@ -288,3 +292,99 @@ def run_case(case: Dict[str, Any]) -> Outcome:
 
 SELFTEST_CASES = [{"module": "os", "name": "getcwd", "depth": 1, "via": "cause", "args": [PROBE_ARG]},
                   {"tree": {"t": ["vt_trapmod", "func"], "args": [1], "suppress": False}, "entry": "result"}]
+
+
+# ---------------------------------------------------------------- histories: loads interleaved with module (un)loading
+#
+# A single load is decided by the current state of sys.modules; anything the loader remembers between loads (memoised
+# verdicts, cached lookups) can make a later load disagree with that state.  Each case uses module names of its own,
+# so cases do not influence each other and a replay in a fresh process behaves the same.
+
+import types as _types
+
+_HCOUNT = [0]
+
+
+def _define_trap_module(name: str) -> None:
+    m = _types.ModuleType(name)
+
+    def fire(*a: Any, **k: Any) -> Any:
+        traps.CALLS.append(name + ".fire")
+        return ValueError("x")
+
+    class Holder:
+        def __init__(self, *a: Any, **k: Any) -> None:
+            traps.CALLS.append(name + ".Holder")
+
+    Exc = type("Exc", (Exception,), {"__module__": name})
+    Holder.__module__ = name
+    m.fire, m.Holder, m.Exc = fire, Holder, Exc  # type: ignore[attr-defined]
+    sys.modules[name] = m
+
+
+def history_cases() -> Any:
+    typ = st.sampled_from(["Exc", "fire", "Holder", "nope", "@fire", "@Holder", "@Exc"])   # "@x": module None, type "<module>.x"
+    load = st.fixed_dictionaries({"op": st.just("load"), "m": st.integers(0, 1), "type": typ, "nest": st.sampled_from([0, 0, 1]),
+                                  "entry": st.sampled_from(["function", "result"])})
+    other = st.fixed_dictionaries({"op": st.sampled_from(["unload", "define"]), "m": st.integers(0, 1)})
+    return st.fixed_dictionaries({"loaded0": st.tuples(st.booleans(), st.booleans()).map(list),
+                                  "ops": st.lists(st.one_of(load, load, load, other), min_size=2, max_size=10)})
+
+
+def run_history(case: Dict[str, Any]) -> Outcome:
+    out = Outcome()
+    out.clauses_checked = ["C20.a", "C20.b", "C20.c", "C20.d", "C20.e"]
+    _HCOUNT[0] += 1
+    names = [f"vt_c20h{_HCOUNT[0]}_{i}" for i in range(2)]
+    try:
+        for i, n in enumerate(names):
+            if case["loaded0"][i]:
+                _define_trap_module(n)
+        changed_after_load = False
+        loads = 0
+        for op in case["ops"]:
+            n = names[op["m"]]
+            if op["op"] == "unload":
+                sys.modules.pop(n, None)
+                changed_after_load = changed_after_load or loads > 0
+            elif op["op"] == "define":
+                _define_trap_module(n)
+                changed_after_load = changed_after_load or loads > 0
+            else:
+                t = op["type"]
+                node: Dict[str, Any] = {"t": [None, n + "." + t[1:]] if t.startswith("@") else [n, t], "args": ["x"]}
+                tree = node if not op["nest"] else {"t": ["builtins", "ValueError"], "args": ["outer"], "cause": node}
+                run_tree(tree, op["entry"], out)
+                loads += 1
+                if out.violations:
+                    break
+        out.nontrivial = bool(changed_after_load and loads >= 2)
+        out.classes = ["history"] + (["module_state_changed_between_loads"] if changed_after_load else [])
+    finally:
+        for n in names:
+            sys.modules.pop(n, None)
+        traps.reset()
+    return out
+
+
+_parts_single = parts
+_run_single = run_case
+
+
+def parts(tier: str) -> List[Part]:  # type: ignore[no-redef]
+    ps = _parts_single(tier)
+    if tier == "thorough":
+        ps.append(Part("histories", "given", shards=4, examples=10000, strategy=history_cases, soft_deadline_s=1200))
+    else:
+        ps.append(Part("histories", "given", shards=2, examples=1500, strategy=history_cases, soft_deadline_s=100))
+    return ps
+
+
+def run_case(case: Dict[str, Any]) -> Outcome:  # type: ignore[no-redef]
+    if "ops" in case:
+        return run_history(case)
+    return _run_single(case)
+
+
+SELFTEST_CASES.append({"loaded0": [True, False], "ops": [{"op": "load", "m": 0, "type": "@fire", "nest": 0, "entry": "function"},
+                                                         {"op": "load", "m": 0, "type": "fire", "nest": 1, "entry": "result"}]})
